@@ -1131,6 +1131,14 @@ impl DdlExecutor {
                     ));
                 };
 
+                // A row with NULL in an indexed column has no index entry (as in index maintenance)
+                if indexed_column_ids
+                    .iter()
+                    .any(|&col_idx| col_idx >= row.len() || row[col_idx].is_null())
+                {
+                    continue;
+                }
+
                 let mut entry_values: Vec<DataType> =
                     Vec::with_capacity(indexed_column_ids.len() + 1);
                 for &col_idx in indexed_column_ids {
